@@ -47,6 +47,11 @@ func (e *Exec) execSimple(st *State, fr *Frame, instr ssa.Instruction) {
 			name = fmt.Sprintf("%s#%d", in.Comment, e.nobj)
 		}
 		elem := in.Type().(*types.Pointer).Elem()
+		if et, ok := isSortedMapType(elem); ok {
+			// &immutable.SortedMap[K,V]{}: the empty map
+			fr.Vals[in] = e.smEmpty(st, et)
+			return
+		}
 		obj := &Object{ID: e.nobj, Name: name, Typ: elem}
 		zv := e.zeroValue(elem)
 		if va, ok := zv.(VArr); ok {
@@ -341,6 +346,8 @@ func (e *Exec) errTerm(v Value) T {
 
 func nilOf(v Value) (T, bool) {
 	switch x := v.(type) {
+	case VSMap:
+		return x.Nil, true
 	case VPtr:
 		return x.Nil, true
 	case VSlice:
